@@ -191,3 +191,23 @@ Definition is_prepend (c : N) : bool :=
   match gcb c with GC_Prepend => true | _ => false end.
 
 Definition printable_ascii (c : N) : bool := (32 <=? c) && (c <=? 126).
+
+(** what the cursor knows after the text [a :: r]: context and category of the last code point *)
+Fixpoint run_from (x : ctx) (ka : cat) (r : list N) : ctx * cat :=
+  match r with
+  | [] => (x, ka)
+  | c :: r' => run_from (advance x c (gcb c)) (gcb c) r'
+  end.
+Definition state_of (s : list N) : ctx * cat :=
+  match s with
+  | [] => (ctx0, GC_Any)
+  | a :: r => run_from (advance ctx0 a (gcb a)) (gcb a) r
+  end.
+
+(** is there a boundary between [s] (non-empty) and a following code point [b]? *)
+Definition break_after (s : list N) (b : N) : bool :=
+  is_break (fst (state_of s)) (snd (state_of s)) (gcb b).
+
+(** every cluster is all-whitespace or whitespace-free; decidable on the string alone *)
+Definition cl_nomixed (c : list N) : bool := forallb is_ws c || forallb (fun x => negb (is_ws x)) c.
+Definition no_mixedb (s : list N) : bool := forallb cl_nomixed (segment s).
